@@ -98,6 +98,8 @@ def check_string(ctx, utils, st, rel, wf, c, old, new):
         # classes of the repaired defects, recognised on the code's own result (the model no longer has them)
         elif got == urllib.parse.unquote(ideal):
             sig = "remap_path:%s:percent-sequence-decoded" % kind
+        elif kind == "path" and got == s and ":/" in s:
+            sig = "remap_path:%s:colon-slash-in-name:not-remapped" % kind
         elif isinstance(got, str) and got != ideal and ideal.startswith(got) and ideal[len(got)] in "#?":
             sig = "remap_path:%s:truncated-at-fragment-or-query-delimiter" % kind
         elif isinstance(got, str) and len(got) == len(ideal) and all(a == b or (b == "+" and a == " ") for a, b in zip(got, ideal)):
@@ -295,7 +297,7 @@ def run(ctx):
     dirs, rows, shapes = model(ctx, level, deep)
     ctx.exhaustive = True
     st = {"calls": 0, "disagree": 0, "disagree_outside": 0, "disagree_samples": [], "code_better_than_model": 0,
-          "value_calls": 0, "delims": 0, "plus": 0, "pct_plain": 0}
+          "value_calls": 0, "delims": 0, "plus": 0, "pct_plain": 0, "colon_slash": 0}
     classes = {}
     pred_mismatch = 0
     nshape = 0
@@ -320,6 +322,8 @@ def run(ctx):
                     st["plus"] += 1
                 if kind == "path" and urllib.parse.unquote(inst(c["s"])) != inst(c["s"]):
                     st["pct_plain"] += 1
+                if kind == "path" and ":/" in c["s"]:
+                    st["colon_slash"] += 1
                 # the python rendering of the predicate `Same` must agree with the specification's on the model's results
                 if same(kind, inst(c["m"]), inst(c["i"])) != c["ok"] or same(kind, inst(c["t"]), inst(c["s"])) != c["rok"]:
                     pred_mismatch += 1
@@ -344,6 +348,7 @@ def run(ctx):
     ctx.count("file_urls_with_literal_fragment_or_query_delimiter", st["delims"])
     ctx.count("names_with_literal_plus", st["plus"])
     ctx.count("plain_paths_with_percent_sequence", st["pct_plain"])
+    ctx.count("plain_paths_with_colon_slash", st["colon_slash"])
     ctx.count("cases", ctx.programs)
     ctx.count("remap_path_calls", st["calls"])
     ctx.count("remap_token_value_calls", st["value_calls"])
@@ -358,7 +363,7 @@ def run(ctx):
     ctx.sample({"string": inst(mid["r"]), "cases": mid["c"][:2]})
     ctx.impl_trace(st["calls"] + st["value_calls"])
     # vacuity: every class the statement names must have been enumerated
-    ctx.require(st["pct_plain"] > 0 and classes.get(("path", "none"), 0) > 100
+    ctx.require(st["pct_plain"] > 0 and st["colon_slash"] > 0 and classes.get(("path", "none"), 0) > 100
                 and classes.get(("locq", "none"), 0) > 10 and classes.get(("http", "none"), 0) > 100 and nshape > 1000
                 and st["delims"] > 10 and st["plus"] > 10,
                 "vacuous enumeration: %r" % (classes,))
